@@ -339,6 +339,9 @@ def check_sequence(osy, case, model, spec, steps, refs, out=None):
             if ref_out["err"] is not None:
                 continue
             rl = ref_out["layers"]
+            if fn == "map":
+                # `map` hands its mode="scatter" layers to the scatter overlay: they are neither binned nor returned
+                rl = [ro for ro in rl if ro["fields"]["mode"] != "scatter"]
             if fn in ("scatter", "plot"):
                 # one params dict per drawn item, all equal to the call's extra options
                 for j, lo in enumerate(res["layers"]):
@@ -371,7 +374,13 @@ def check_sequence(osy, case, model, spec, steps, refs, out=None):
             used = [res["nx"], res["ny"], res["nz"] if (fn == "map" and call.get("dz")) else None]
             if fn == "map" and call.get("dz") and used[2] is None:
                 used[2] = m["out"]["nz"]
-            for j, lo in enumerate(res["layers"]):
+            shown = list(range(len(m["out"]["layers"])))
+            if fn == "map":
+                shown = [i for i, ro in enumerate(m["out"]["layers"]) if ro["fields"]["mode"] != "scatter"]
+            for jj, lo in enumerate(res["layers"]):
+                if jj >= len(shown):
+                    continue
+                j = shown[jj]
                 key = layer_key(case, call, j)
                 if key is None or j >= len(m["out"]["layers"]) or j >= len(s["out"]["layers"]):
                     continue
@@ -605,6 +614,13 @@ def gen_sequence(r, tier, plot_lane=False, malformed=False):
                 call["dx"] = None
             if malformed and r.random() < 0.3:
                 call["layers"] = ls + ["raw:density"]
+            if not plot_lane and len(ls) >= 1 and r.random() < 0.25:
+                # a mode="scatter" layer of its own (used by this call only) before or between the image layers: it goes to the
+                # scatter overlay, the image layers after it keep their own options
+                case["layers"].append({"key": r.choice(["density", "mass"]), "opts": {"mode": "scatter", "kwargs": []}})
+                h1ok.append(False)
+                pos = r.randrange(len(call["layers"]))
+                call["layers"] = call["layers"][:pos] + [len(case["layers"]) - 1] + call["layers"][pos:]
         elif fn == "histogram2d":
             res = r.choice(["shared", 4, 8, 5]) if case["res"] is not None else r.choice([4, 8, 5])
             call = {"fn": "histogram2d", "x": r.choice(["density", "mass", "position.x"]), "y": r.choice(["mass", "temperature", "position.y"]),
